@@ -297,6 +297,7 @@ def _stream_iteration(c: Ctx, f, sc, lp: ast.For):
 
 # ------------------------------------------------------------------------------------------------ TYPO
 def rule_typo(c: Ctx) -> RuleResult:
+    _CTX_FOR_COUNTERS[:] = [c]
     r = RuleResult("TYPO", "the typographic rules write only `.content` of text tokens (outside autolinks for the replacements), never "
                            "restructure a token list or build tokens; replaceAt substitutes exactly one character")
     mods = ("rules_core/replacements.py", "rules_core/smartquotes.py")
@@ -486,10 +487,64 @@ def _text_guard(c: Ctx, f: Func, n: ast.AST, recv: ast.AST, cfg: CFG, res: dict)
     return False, f"the store to `{rt}.content` is not dominated by `{rt}.type == 'text'`"
 
 
+def _step_helper_ok(c: Ctx | None, f: Func, call: ast.AST) -> bool:
+    """`call` is <helper>(token) where the helper returns the change of the autolink counter caused by the token: a non-zero
+    constant d for a link_open with info 'auto', -d for such a link_close, 0 for any token whose info is not 'auto'
+    (decided by walking the helper's CFG under each of the three cases)."""
+    if c is None or not isinstance(call, ast.Call) or len(call.args) != 1:
+        return False
+    cs = c.cg.site_of.get(call)
+    if cs is None or len(cs.callees) != 1 or cs.callees[0].module is not f.module:
+        return False
+    h = cs.callees[0]
+    if not h.node.args.args:
+        return False
+    p = h.node.args.args[0].arg
+    hcfg = c.cfg(h)
+
+    def walk(info_auto: bool, kind: str):
+        cur = hcfg.entry
+        for _ in range(500):
+            if cur is None or cur is hcfg.exit:
+                return None
+            if cur.kind == "test":
+                a = cur.ast
+                v = None
+                if isinstance(a, ast.Compare) and len(a.ops) == 1 and isinstance(a.comparators[0], ast.Constant):
+                    lhs, rhs = U(a.left), a.comparators[0].value
+                    eq = isinstance(a.ops[0], ast.Eq)
+                    if isinstance(a.ops[0], (ast.Eq, ast.NotEq)):
+                        if lhs == f"{p}.info" and rhs == "auto":
+                            v = info_auto == eq
+                        elif lhs == f"{p}.type":
+                            v = (kind == rhs) == eq
+                if v is None:
+                    return None
+                cur = next((m for (m, l) in cur.succ if l == ("T" if v else "F")), None)
+                continue
+            if cur.kind == "stmt" and isinstance(cur.ast, ast.Return):
+                from ..syn import const_int
+                return const_int(cur.ast.value) if cur.ast.value is not None else None
+            nxt = [m for (m, l) in cur.succ if l != "exc"]
+            cur = nxt[0] if len(nxt) == 1 else None
+        return None
+    a_, b_, z1, z2 = walk(True, "link_open"), walk(True, "link_close"), walk(False, "link_open"), walk(False, "link_close")
+    return a_ is not None and b_ is not None and a_ != 0 and b_ == -a_ and z1 == 0 and z2 == 0
+
+
+_CTX_FOR_COUNTERS: list = []
+
+
 def _autolink_counters(g: Func) -> set[str]:
-    """Locals of g that are incremented / decremented under a test of a token's type against 'link_open' / 'link_close'."""
+    """Locals of g that are incremented / decremented under a test of a token's type against 'link_open' / 'link_close' - or by
+    the result of a helper that computes that step from the token."""
     from ..syn import incr_of
     out: set[str] = set()
+    for n in own_nodes(g.node):
+        inc = incr_of(n) if isinstance(n, (ast.Assign, ast.AugAssign)) else None
+        if inc is not None and inc[0].isidentifier() and inc[2] and isinstance(inc[1], ast.Call) and _CTX_FOR_COUNTERS \
+                and _step_helper_ok(_CTX_FOR_COUNTERS[0], g, inc[1]):
+            out.add(inc[0])
     for n in own_nodes(g.node):
         if isinstance(n, ast.If) and any(isinstance(x, ast.Constant) and x.value in ("link_open", "link_close") for x in ast.walk(n.test)):
             for s_ in ast.walk(n):
@@ -535,7 +590,14 @@ def _bookkeeping(c: Ctx, r: RuleResult, f: Func) -> None:
             continue
         ok = True
         kinds_seen = []
+        work: list[tuple[ast.AST, str, set[int]]] = []
         for u in ups:
+            iu = incr_of(u)
+            if iu is not None and isinstance(iu[1], ast.Call) and _step_helper_ok(c, f, iu[1]):
+                # `counter += step(token)`: the statement itself is the update for both kinds
+                work.append((u, "link_open", set()))
+                work.append((u, "link_close", set()))
+                continue
             guard = f.module.parents.get(u)
             while guard is not None and not isinstance(guard, ast.If):
                 guard = f.module.parents.get(guard)
@@ -546,9 +608,9 @@ def _bookkeeping(c: Ctx, r: RuleResult, f: Func) -> None:
             if len(lits) != 1:
                 ok = False
                 continue
-            L = lits[0]
+            work.append((u, lits[0], {id(x) for x in ast.walk(guard.test)}))
+        for (u, L, guard_tests) in work:
             kinds_seen.append(L)
-            guard_tests = {id(x) for x in ast.walk(guard.test)}
             unode = {n.id for n in cfg.owner(u)}
 
             def type_test(a: ast.AST):
